@@ -450,7 +450,7 @@ def run_case(ctx, case):
                 ctx.event('context_refusals_checked')
                 try:
                     ComputationContext(pool=pool, **kw)
-                except ValueError:
+                except Exception:      # any refusal counts, the statement does not prescribe the type
                     continue
                 raise Violation('foreign-context-accepted', 'pool accepted %s although created with batch_size=%d seed=%d' % (kw, case['bs'], case['seed']))
         # the same on a pool that has been handed to an inference object but has not received a batch yet (two samplers set up
@@ -462,7 +462,7 @@ def run_case(ctx, case):
                 ctx.event('context_refusals_on_unused_pool_checked')
                 try:
                     elfi.Rejection(m2['d'], pool=fresh, **kw)
-                except ValueError:
+                except Exception:      # any refusal counts, the statement does not prescribe the type
                     continue
                 raise Violation('foreign-context-accepted', 'a pool already given to a sampler with batch_size=%d seed=%d (no batch stored yet) accepted a '
                                 'second sampler with %s' % (case['bs'], case['seed'], kw))
